@@ -9,7 +9,7 @@ CONSTANTS Tier          \* "quick": the base contexts; "thorough": all registere
 
 Ctxs == IF Tier = "quick" THEN BaseCtxs ELSE AllCtxs
 Vals == {"full", "zero"}
-Boxes(t) == <<"static", "any">> \o SetToSeq(TypeTab[t].impl)
+Boxes(t) == <<"static", "any">> \o SetToSeq(Desc(t).impl)
 BoxSet(t) == {Boxes(t)[i] : i \in 1..Len(Boxes(t))}
 
 VARIABLES c, t, v, b, ph
@@ -17,8 +17,8 @@ vars == <<c, t, v, b, ph>>
 StaticType == IF b = "static" THEN t ELSE BoxType(b)      \* static type of the global v
 
 Init == c \in Ctxs /\ t \in TypeClasses /\ v \in Vals /\ b \in BoxSet(t) /\ ph = "declared"
-Accept  == ph = "declared" /\ CheckShow(CtxTab[c][1], StaticType)  /\ ph' = "accepted" /\ UNCHANGED <<c, t, v, b>>
-Reject  == ph = "declared" /\ ~CheckShow(CtxTab[c][1], StaticType) /\ ph' = "rejected" /\ UNCHANGED <<c, t, v, b>>
+Accept  == ph = "declared" /\ CheckShow(CtxOf(c)[1], StaticType)  /\ ph' = "accepted" /\ UNCHANGED <<c, t, v, b>>
+Reject  == ph = "declared" /\ ~CheckShow(CtxOf(c)[1], StaticType) /\ ph' = "rejected" /\ UNCHANGED <<c, t, v, b>>
 ShowOk   == ph = "accepted" /\ ~ModelR(c, t, v = "zero") /\ ph' = "shown"  /\ UNCHANGED <<c, t, v, b>>
 ShowFail == ph = "accepted" /\ ModelR(c, t, v = "zero")  /\ ph' = "failed" /\ UNCHANGED <<c, t, v, b>>
 Next == Accept \/ Reject \/ ShowOk \/ ShowFail
@@ -30,19 +30,18 @@ ModelBoxedFailsOnlyIfRejected == (b # "static" /\ ph = "failed") => ~ModelB(c, t
 \* a variable of type any always builds
 ModelAnyBuilds == b = "any" => ph # "rejected"
 
-\* ---- exports (constant level)
-CellSeq == SetToSeq(Ctxs \X TypeClasses \X Vals)
-Cases == [i \in 1..Len(CellSeq) |->
-            [id |-> i, ctx |-> CellSeq[i][1], type |-> CellSeq[i][2], val |-> CellSeq[i][3], boxes |-> Boxes(CellSeq[i][2])]]
-ASSUME ndJsonSerialize("cases.ndjson", Cases)
+\* ---- exports (constant level; the LETs make TLC evaluate each sequence once)
+CellSet == Ctxs \X TypeClasses \X Vals
 BadCell(x) == ModelB(x[1], x[2]) /\ ModelR(x[1], x[2], x[3] = "zero")
-ModelBad == SelectSeq(CellSeq, BadCell)
-ASSUME ndJsonSerialize("model_bad.ndjson",
-         [i \in 1..Len(ModelBad) |-> [ctx |-> ModelBad[i][1], type |-> ModelBad[i][2], val |-> ModelBad[i][3]]])
+ASSUME LET S == SetToSeq(CellSet) IN
+       ndJsonSerialize("cases.ndjson",
+         [i \in 1..Len(S) |-> [id |-> i, ctx |-> S[i][1], type |-> S[i][2], val |-> S[i][3], boxes |-> Boxes(S[i][2])]])
+ASSUME LET S == SetToSeq({x \in CellSet : BadCell(x)}) IN
+       ndJsonSerialize("model_bad.ndjson", [i \in 1..Len(S) |-> [ctx |-> S[i][1], type |-> S[i][2], val |-> S[i][3]]])
 ASSUME ndJsonSerialize("model_stats.ndjson",
-         <<[cells |-> Len(CellSeq),
+         <<[cells |-> Cardinality(CellSet),
             contexts |-> Cardinality(Ctxs), type_classes |-> Cardinality(TypeClasses),
-            accepted |-> Cardinality({i \in 1..Len(CellSeq) : ModelB(CellSeq[i][1], CellSeq[i][2])}),
-            render_fails |-> Cardinality({i \in 1..Len(CellSeq) : ModelR(CellSeq[i][1], CellSeq[i][2], CellSeq[i][3] = "zero")}),
-            accepted_and_fails |-> Len(ModelBad)]>>)
+            accepted |-> Cardinality({x \in CellSet : ModelB(x[1], x[2])}),
+            render_fails |-> Cardinality({x \in CellSet : ModelR(x[1], x[2], x[3] = "zero")}),
+            accepted_and_fails |-> Cardinality({x \in CellSet : BadCell(x)})]>>)
 =============================================================================
